@@ -21,10 +21,15 @@
 package template
 
 import (
+	"bytes"
 	"go/format"
+	"go/parser"
+	"go/token"
 	"regexp"
+	"strconv"
 
 	"github.com/gontainer/gontainer-helpers/v3/grouperror"
+	"golang.org/x/tools/go/ast/astutil"
 	"golang.org/x/tools/imports"
 )
 
@@ -59,7 +64,47 @@ func (CodeFormatter) Format(c string) (_ string, err error) {
 
 	// remove unused imports
 	// required for generating stubs
-	r, err = imports.Process("", r, nil)
+	r, err = removeUnusedImports(r)
+	if err != nil {
+		return "", err
+	}
+
+	// group and sort the imports; imports are neither added nor looked up,
+	// so the result depends neither on the environment nor on the working directory
+	r, err = imports.Process("", r, &imports.Options{
+		Comments:   true,
+		TabIndent:  true,
+		TabWidth:   8,
+		FormatOnly: true,
+	})
 
 	return string(r), err
+}
+
+// removeUnusedImports deletes the imports the generated code does not refer to.
+// All imports of the generated file are named, so it is a syntactic check.
+func removeUnusedImports(src []byte) ([]byte, error) {
+	fset := token.NewFileSet()
+	file, err := parser.ParseFile(fset, "", src, parser.ParseComments)
+	if err != nil {
+		return nil, err
+	}
+
+	for _, group := range astutil.Imports(fset, file) {
+		for _, spec := range group {
+			path, err := strconv.Unquote(spec.Path.Value)
+			if err != nil || spec.Name == nil || spec.Name.Name == "_" || spec.Name.Name == "." {
+				continue
+			}
+			if !astutil.UsesImport(file, path) {
+				astutil.DeleteNamedImport(fset, file, spec.Name.Name, path)
+			}
+		}
+	}
+
+	var buf bytes.Buffer
+	if err := format.Node(&buf, fset, file); err != nil {
+		return nil, err
+	}
+	return buf.Bytes(), nil
 }
